@@ -60,11 +60,12 @@ var extraExplanations3 = map[string]string{
 	"C05": "R-ENVELOPE-ERR-IS-HANDLERS: no error written into an exception batch originates from ctx.Err()/context.Cause (the handler's error is never replaced by the cancellation).",
 	"C07": "R-DEFAULT-OWN-CELL: tagInfo.Default points at a variable allocated and written once beside the store (not a cell shared between options or loop iterations). R-INSTANT-NO-SCALE: timestampToTime passes the wire value unscaled to time.Unix/UnixMilli/UnixMicro and contains no multiplication.",
 	"C08": "R-NO-POOLED-BYTES: no function returns Bytes() of a buffer it gives back to a sync.Pool. R-INSTANT-NO-SCALE: see C07. R-DICT-BY-CODE: every read of a dictionary's value array is indexed by GetValueIndex(row). R-DATE-FLOOR (tightened): the day number is stepped back exactly under (secs % day) < 0 of the same division.",
-	"C10": "R-VERSION-FLAG-ALWAYS-SET: SetProtocolVersion writes protocolVersionSet on every path, false under v == \"\" and true under v != \"\".",
-	"C11": "R-CAST-KEEPS-META: castRecordBatch rebuilds the batch with the source's Metadata(). R-CAST-WHENEVER-DIFFERENT: no input-cast site (HTTP exchange, pipe loop) is conditioned on the batch's contents. R-CALLTOKEN-SCHEMA: /init mints call tokens with the schema the response stream is written with.",
+	"C10": "R-VERSION-FLAG-ALWAYS-SET: SetProtocolVersion writes protocolVersionSet on every path, false under v == \"\" and true under v != \"\". R-SEMVER|admit and R-DIRECTION are decided on checkProtocolVersion's decision table: its CFG is walked for each of the nine orderings of (client major vs server major, client minor vs server minor) and for an absent and a malformed version; the outcome must be admitted ⇔ both equal, otherwise a refusal naming the client when it is older and the server when it is older (shape of the if/switch chain irrelevant).",
+	"C11": "R-CAST-KEEPS-META: castRecordBatch rebuilds the batch with the source's Metadata(). R-CAST-WHENEVER-DIFFERENT: no input-cast site (HTTP exchange, pipe loop) is conditioned on the batch's contents. R-CALLTOKEN-SCHEMA: /init mints call tokens with the schema the response stream is written with. R-MODE is also decided as a table: isProducer over (method type ∈ producer/exchange/dynamic) × (state implements ProducerState) must be producer→true, exchange→false, dynamic→the flag, identically in the pipe loop, /init and /exchange.",
 	"C17": "R-NEGOTIATE-PER-REQUEST: the codec and header choice given to the compressing writer are the results of this request's chooseResponseEncoding call (directly or through a helper that returns nothing else), and that call is given producibleResponseEncodings() computed at the call.",
 	"C18": "R-EXEMPT-WHOLE-SEGMENT: the cap exemption's prefix tests end in \"/\". R-CLAMP-REACHES-DEFAULT: every path that takes the 16× default decoded-size cap also tests requestCapApplied (before or after). R-GZIP-ALL-MEMBERS: no gzip reader has multistream switched.",
-	"C23": "R-VALIDATOR-VERBATIM: after validate(token), BearerAuthenticate returns exactly the validator's two results. R-UNWRAP-UNBOUNDED: asAuthFailure's walk is governed by no integer comparison (no depth bound).",
+	"C21": "R-EXCEPTION-BEFORE-MISMATCH: parseIPCStream reports a differing response schema only after the stream's batches were read for an exception envelope (directly or through a helper that loops over reader.Next()), and an envelope found there is returned as rpcErrorFromMetadata (F25).",
+	"C23": "R-VALIDATOR-VERBATIM: after validate(token), BearerAuthenticate returns exactly the validator's two results. R-UNWRAP-UNBOUNDED: asAuthFailure's walk is governed by no integer comparison (no depth bound). R-AUTH-STATUS is decided on authenticate's decision table over (errors.As unavailable, asAuthFailure, direct *RpcError, Type ValueError/PermissionError): unavailable → Retry-After then 503; AuthFailure or a direct ValueError/PermissionError → 401; otherwise 500.",
 	"C27": "R-ALLOWLIST-VERBATIM: allowlist keys are the configured strings, not call results. R-RELATIVE-ONLY: validateOriginalURL tests both Scheme and Host for emptiness. R-STATE-WHOLE: both operands of the state comparison are direct []byte conversions of the strings.",
 	"C28": "R-READER-SINGLE: each of the six exported readers makes exactly one call, to parseQuotedParam. R-CHALLENGE-REBUILT: every success return of SetOAuthResourceMetadata follows a store of wwwAuthenticate.",
 	"C30": "R-NO-POOLED-BYTES: see C08. R-SHA-WHENEVER-PRESENT: the checksum computation in ResolveExternalLocation is guarded only by the pointer's keys and nil tests.",
